@@ -173,20 +173,24 @@ func TestC04(t *testing.T) {
 var profC06 = &hist.Profile{
 	Name: "C06", MinOps: 12, MaxOps: 45, Topics: 4, Subs: 5,
 	W: map[string]int{
-		hist.OpPublish: 12, hist.OpPull: 26, hist.OpNack: 12, hist.OpModAck: 8, hist.OpAck: 5, hist.OpAdvance: 20, hist.OpSweep: 10,
+		hist.OpPublish: 12, hist.OpPull: 26, hist.OpNack: 12, hist.OpModAck: 8, hist.OpAck: 5, hist.OpAdvance: 20, hist.OpSweep: 10, hist.MacroExhaustedExpires: 3,
 		hist.OpCreateSub: 6, hist.OpDeleteSub: 1, hist.OpDeleteTopic: 2, hist.OpCreateTopic: 1, hist.OpUpdateSub: 1, hist.OpJob: 3,
 	},
 	Ordered: 20, Keys: []string{"", "K1"}, Filters: hist.DefaultFilters,
 	DLPercent: 75, Attempts: []int{0, 1, 1, 2, 2, 3, 4}, Retry: 80,
 	MinBs: []time.Duration{100 * ms, 400 * ms, sec}, MaxBs: []time.Duration{0, sec, 10 * sec},
 	Rets: []time.Duration{0, hour}, NoSelfDL: true,
-	JobKinds: []string{"deleted-topics", "deleted-topics", "deleted-subscriptions", "expired-deliveries", "completed-messages"}, JobAges: []time.Duration{0, 0, sec},
+	AdvScales: []time.Duration{ms, 100 * ms, 100 * ms, sec, sec, 5 * sec, 11500 * ms, minute, 11 * minute, 25 * hour},
+	JobKinds:  []string{"deleted-topics", "deleted-topics", "deleted-subscriptions", "expired-deliveries", "completed-messages"}, JobAges: []time.Duration{0, 0, sec},
 	Prelude: func(t *rapid.T, g *hist.Gen) {
 		preludeTopics(3)(t, g)
 		cfg := g.GenCfg("t0")
 		cfg.DLTopic = "t1"
 		cfg.MaxAttempts = rapid.SampledFrom([]int{1, 2, 3}).Draw(t, "n0")
 		g.R.Step(hist.Op{K: hist.OpCreateSub, S: "s0", T: "t0", Cfg: &cfg})
+		// someone to forward to (often filtered; it may forward on to t2)
+		cfg1 := g.GenCfg("t1")
+		g.R.Step(hist.Op{K: hist.OpCreateSub, S: "s1", T: "t1", Cfg: &cfg1})
 	},
 }
 
